@@ -138,3 +138,29 @@ fn c02_sort_metric_maha_gate() {
         }
     }
 }
+
+//@H props=C02 kind=bounded tier=quick stubs=no fn=<SortMetric-as-ObservationMetric>::postprocess_distances bound="3 results"
+//@H clause: post-processing keeps exactly the results that carry a positional value (gated pairs), in their original order
+#[kani::proof]
+#[kani::unwind(8)]
+fn c02_sort_postprocess_keeps_gated() {
+    let m = SortMetric::default();
+    let mut v: Vec<ObservationMetricOk<Universal2DBox>> = Vec::with_capacity(3);
+    let mut present = [false; 3];
+    for i in 0..3 {
+        let am: Option<f32> = kani::any();
+        present[i] = am.is_some();
+        v.push(ObservationMetricOk::new(i as u64, 100 + i as u64, am, None));
+    }
+    let r = m.postprocess_distances(v);
+    kani::cover!(r.len() == 2, "reach/c02_sort_postprocess_keeps_gated");
+    let want: usize = present.iter().filter(|p| **p).count();
+    assert!(r.len() == want, "C02/sort.postprocess.count: exactly the results with a positional value are kept");
+    let mut k = 0;
+    for i in 0..3 {
+        if present[i] {
+            assert!(r[k].from == i as u64 && r[k].attribute_metric.is_some(), "C02/sort.postprocess.order_and_identity: kept results are the gated ones, in their original order");
+            k += 1;
+        }
+    }
+}
